@@ -103,7 +103,11 @@ func zzH_SRV() {
 			vYield()
 		}
 	}
-	vQuiesce()
+	// the peer's write side ends after the server has gone quiet, or (srv.cut=1) right behind the last
+	// request: the requests already received are still executed and answered, in the same order
+	if vChoose("eof-right-behind", 1+vParam("srv.cut", 0)) == 0 {
+		vQuiesce()
+	}
 	m.fail(io.EOF)
 	vAtEnd(func() {
 		vAssert(vBlocked() == 0, "server-goroutines-exit")
